@@ -15,9 +15,14 @@ enum DbOp {
     Delete(u8, u16),
     Get(u8, u16),
     Read(u8, u16, u16),
+    /// `c`: the transaction ends here (the next database op starts a new one)
+    Commit,
 }
 
 fn parse_op(s: &str) -> Option<DbOp> {
+    if s == "c" {
+        return Some(DbOp::Commit);
+    }
     let kind = s.chars().next()?;
     let parts: Vec<&str> = s[1..].split('.').collect();
     let t: u8 = parts.first()?.parse().ok()?;
@@ -81,7 +86,7 @@ unsafe fn apply(db: *mut rodbus_ffi::Database, op: DbOp) -> String {
                 format!("err{rc}")
             }
         }
-        DbOp::Read(..) => "?".into(),
+        DbOp::Read(..) | DbOp::Commit => "?".into(),
     }
 }
 
@@ -107,7 +112,8 @@ fn client_read(t: u8, start: u16, count: u16, unit: u8) -> String {
     }
 }
 
-/// ffi db <op>,<op>,...   maximal runs of database ops form one transaction each
+/// ffi db <op>,<op>,...   maximal runs of database ops (between reads and `c` tokens) form one
+/// transaction each
 pub fn run_db(tok: &[&str]) -> String {
     let ops: Vec<DbOp> = match tok.get(2) {
         Some(&"-") => vec![],
@@ -126,8 +132,12 @@ pub fn run_db(tok: &[&str]) -> String {
             i += 1;
             continue;
         }
+        if let DbOp::Commit = ops[i] {
+            i += 1;
+            continue;
+        }
         let mut j = i;
-        while j < ops.len() && !matches!(ops[j], DbOp::Read(..)) {
+        while j < ops.len() && !matches!(ops[j], DbOp::Read(..) | DbOp::Commit) {
             if let DbOp::Add(t, idx, _) = ops[j] {
                 touched.push((t, idx));
             }
